@@ -228,3 +228,52 @@ Example C01_combine_group_outside :
                 (Tok (oc_at 3 false false true false true 3) [] (KLit [46%N]))) in
   in_class [] g = false /\ in_ref_class [] g = true.
 Proof. vm_compute. split; reflexivity. Qed.
+
+(* ---- repetition with stop_on in the proved class ----
+   `in_class` contains `Rep a [] zero body (Some ne)` when `a` is plain and the body and the sentinel `ne` (the dumped
+   `NotAny(stop_on)`, tried by `try_parse` before every round, do_actions = False) are in the class; the reading
+   (`peg_star_stop`): "repeat the body while the stop expression does NOT match here".  So C01_peg_equiv /
+   C01_peg_equiv_nopre / C01_parse_string above cover "ZeroOrMore, OneOrMore with stop_on".
+   Witness: the dump (after streamline) of  OneOrMore(Word("abden"), stop_on="end") + "end". *)
+Definition ex_stop : expr :=
+  Nary (oc_at 1 true true true true true 22) [] NAnd
+    [ Rep (oc_at 2 true true true false false 14) [] false
+        (Tok (oc_at 5 false true true false true 9) [] (KWord [97; 98; 100; 101; 110]%N [97; 98; 100; 101; 110]%N 1 None false false true))
+        (Some (Enh (oc_at 3 false false true false true 8) [] ENot
+                 (Tok (oc_at 4 false true true false true 5) [] (KLit [101; 110; 100]%N))));
+      Tok (oc_at 6 false true true false true 5) [] (KLit [101; 110; 100]%N) ].
+(* the same grammar without the stop_on *)
+Definition ex_nostop : expr :=
+  Nary (oc_at 1 true true true true true 22) [] NAnd
+    [ Rep (oc_at 2 true true true false false 14) [] false
+        (Tok (oc_at 5 false true true false true 9) [] (KWord [97; 98; 100; 101; 110]%N [97; 98; 100; 101; 110]%N 1 None false false true))
+        None;
+      Tok (oc_at 6 false true true false true 5) [] (KLit [101; 110; 100]%N) ].
+
+(* "ab den end" reads ['ab', 'den', 'end'] (without stop_on the Word eats 'end' and the sequence fails); on "abend end" the
+   stop expression does not match at 0, so 'abend' is one word; on "end" the OneOrMore fails at once; "ab den" lacks the
+   closing 'end'.  Parser (do_actions = true and false) and parse_string agree with the reading. *)
+Example C01_stop_on_instance :
+  env_in_class [] = true /\ in_class [] ex_stop = true /\
+  (let s := [97; 98; 32; 100; 101; 110; 32; 101; 110; 100]%N in
+   peg [] s 6 ex_stop 0 = POk 10 [TStr [97; 98]%N; TStr [100; 101; 110]%N; TStr [101; 110; 100]%N] /\
+   proj (parse (step []) 6 (mkargs ex_stop s 0 true true)) = Some (peg [] s 6 ex_stop 0) /\
+   proj (parse (step []) 6 (mkargs ex_stop s 0 false true)) = Some (peg [] s 6 ex_stop 0) /\
+   peg [] s 6 ex_nostop 0 = PFail) /\
+  (let s := [97; 98; 101; 110; 100; 32; 101; 110; 100]%N in
+   peg [] s 6 ex_stop 0 = POk 9 [TStr [97; 98; 101; 110; 100]%N; TStr [101; 110; 100]%N] /\
+   proj (parse (step []) 6 (mkargs ex_stop s 0 true true)) = Some (peg [] s 6 ex_stop 0)) /\
+  (peg [] [101; 110; 100]%N 6 ex_stop 0 = PFail /\
+   proj (parse (step []) 6 (mkargs ex_stop [101; 110; 100]%N 0 true true)) = Some PFail) /\
+  (peg [] [97; 98; 32; 100; 101; 110]%N 6 ex_stop 0 = PFail /\
+   proj (parse (step []) 6 (mkargs ex_stop [97; 98; 32; 100; 101; 110]%N 0 true true)) = Some PFail) /\
+  (exists r, drun (parse (step []) 6) (parse_string [32; 10; 9; 13]%N ex_stop false [97; 98; 32; 100; 101; 110; 32; 101; 110; 100]%N false)
+             = Some (Entry.POk r) /\ pr_as_list r = [TStr [97; 98]%N; TStr [100; 101; 110]%N; TStr [101; 110; 100]%N]).
+Proof. vm_compute. repeat split. eexists. split; reflexivity. Qed.
+
+(* Combine over a repetition with stop_on is in the class too (`flat_class`: the sentinel yields no token) *)
+Example C01_stop_on_combine_instance :
+  let g := Enh (oc_at 7 false true true true false 31) [] (ECombine []) ex_stop in
+  in_class [] g = true /\
+  peg [] [97; 98; 32; 100; 101; 110; 32; 101; 110; 100]%N 7 g 0 = POk 10 [TStr [97; 98; 100; 101; 110; 101; 110; 100]%N].
+Proof. vm_compute. split; reflexivity. Qed.
